@@ -49,7 +49,12 @@ def record(job):
         from fractions import Fraction as F
         m = job["morph"]
         lam = F(m["lam"][0], m["lam"][1])
-        coords = [[F(m["frm"][k]) + lam * (F(p[k]) - F(m["frm"][k])) for k in range(3)] if list(p) == list(m["to"]) else p for p in pts]
+        if m.get("squash"):
+            # an invertible affine map preserves the combinatorial type of the convex hull: z -> lam z turns every polytope
+            # into a thin plate whose side faces have an aspect ratio of 1 / lam
+            coords = [[F(p[0]), F(p[1]), lam * F(p[2])] for p in pts]
+        else:
+            coords = [[F(m["frm"][k]) + lam * (F(p[k]) - F(m["frm"][k])) for k in range(3)] if list(p) == list(m["to"]) else p for p in pts]
     verts = np.array(fl(pl.points(coords)), dtype=float)
     tr = {"tid": job["tid"], "pts": pts, "kind": kind, "events": [], "given": []}
     try:
@@ -169,10 +174,17 @@ def run(ctx, recs):
             for pl in (pal[0], pal[2], pal[3]):
                 jobs.append({"rec": r, "pl": pl.to_json(), "seed": ctx.seed * 1000 + 7 * i + len(jobs), "kind": "convex", "tid": len(jobs),
                              "morph": {"to": [3, 3, 3], "frm": [2, 2, 2], "lam": lam}})
+    # thin plates: a sample of the polytopes squashed along z by 1e-3 and 1e-7 (same combinatorial type), as ConvexPolyhedron and
+    # through Polyhedron.sort_faces (merge_faces decides by a tolerance and is not asked about plates)
+    for k, r in enumerate([x for x in chosen if any(len(f["cyc"]) >= 4 for f in x["facets"])][: (12 if quick else 150)]):
+        for lam in ([1, 1000], [1, 10 ** 7]):
+            for kind in ("convex", "sort"):
+                jobs.append({"rec": r, "pl": pal[(k + len(kind)) % 4].to_json(), "seed": ctx.seed * 1000 + 11 * k + len(kind) + lam[1] % 7,
+                             "kind": kind, "tid": len(jobs), "morph": {"squash": True, "lam": lam}})
     traces = pmap(record, jobs)
     good = []
     for job, tr in zip(jobs, traces):
-        tags = [job["kind"], "nv%d" % len(job["rec"]["v"])] + (["nearly_flat_ridge"] if job.get("morph") else [])
+        tags = [job["kind"], "nv%d" % len(job["rec"]["v"])] + ((["thin_plate"] if job["morph"].get("squash") else ["nearly_flat_ridge"]) if job.get("morph") else [])
         if "error" in tr:
             ctx.violation({"cls": "Polyhedron" if job["kind"] != "convex" else "ConvexPolyhedron",
                            "obs": {"convex": "construct", "sort": "sort_faces", "merge": "merge_faces"}[job["kind"]],
